@@ -66,7 +66,7 @@ CHECKS = {
    technique='explicit-state exploration of operand pairs (BFS pools) with lock-step reference-model comparison'),
  'C06': dict(engine='explore', design='4/C06',
    text='Explicit-state BFS pools of real values (depth 2/3, conflicting/equal/clearing settings, rainbow seeds) x every (start, end) in ([-L-2..L+3]+None)^2 x topmost x 7-11 settings choices: the post-state is compared with the pre-state by the relation the statement gives (text, outside cells, inside multiset, old precedence, bottom/top precedence per effect group, no-op cases by canonical equality) and probed for closedness and self-consistency. Also: menus with two conflicting new settings, a reset, a verbatim two-group setting and a separator-only argument; start states with restart points, three stacked settings (exhaustive triples of ranges), the less common groups; the AnsiStr twin over the whole raw bounds grid.',
-   note='Trusted: mc/model.py, mc/refterm.py (effect groups). Raw out-of-range bounds are checked with every settings choice in thorough, one in quick. L<=4, <=3 live spans.',
+   note='Trusted: mc/model.py, mc/refterm.py (effect groups). Raw out-of-range bounds are checked with four settings choices in thorough, one in quick. L<=4, <=3 live spans.',
    technique='explicit-state BFS over operation histories with a relational (pre/post) reference oracle'),
  'C07': dict(engine='explore', design='4/C07',
    text='Explicit-state BFS pools (as C06, L<=5) x every (start, end) x every selection (None, present/absent/hidden roles, pairs, empty): post-state compared with the deterministic cell model (inside: minus matching codes, order kept; outside: unchanged under multiset + per-group precedence), empty ranges by canonical equality, clear_formatting, AnsiStr twins, closedness/self-check of every post-state. Also: separator-only selections (must remove nothing), start states with restart points, exhaustive triples of ranges, reset / two-group settings; the AnsiStr twin over the whole raw bounds grid.',
